@@ -357,82 +357,130 @@ def _autodiff_tensor(rep, rule, path, line, run, result, n, jac: bool):
 
 
 def _interpolate_rule(model, rep):
+    """Symbolic run of AbstractBasis.interpolate on a stub basis with three
+    local functions, two solution components and the fields (value, grad,
+    None, ...): field n of component c must be
+    sum_i w[element_dofs[i]] * basis[i][c].get(n), from zero."""
+    from ..interp import Interp, Obj, PyFunc, Raised, Unsupported
     R3 = "C01-R3"
-    fn = model.func("skfem.assembly.basis.abstract_basis",
-                    "AbstractBasis.interpolate")
+    bcls = model.cls("skfem.assembly.basis.abstract_basis", "AbstractBasis")
+    fn = bcls.methods["interpolate"]
     path = fn.path
-    inner = [n for n in ast.walk(fn.node) if isinstance(n, ast.FunctionDef)
-             and n is not fn.node]
-    if len(inner) != 1:
-        raise AnalysisError("interpolate: nested accumulation function not "
-                            "found")
-    lc = inner[0]
-    field_arg = lc.args.args[0].arg
-    loops = [n for n in ast.walk(lc) if isinstance(n, ast.For)]
-    if len(loops) != 1:
-        raise AnalysisError("interpolate: accumulation loop not found")
-    lp = loops[0]
-    i = lp.target.id if isinstance(lp.target, ast.Name) else None
-    _v(rep, R3, src(lp.iter) == "range(self.Nbfun)", "interpolate:range",
-       "accumulates over all range(self.Nbfun) local functions", path,
-       "AbstractBasis.interpolate",
-       f"accumulation runs over {src(lp.iter)}, not all local functions",
-       lp.lineno)
-    defs = {}
-    for n in ast.walk(lp):
-        if isinstance(n, ast.Assign) and isinstance(n.targets[0], ast.Name):
-            defs[n.targets[0].id] = n.value
-    acc = [n for n in ast.walk(lp) if isinstance(n, ast.AugAssign)]
-    ok_pair = False
-    detail = "no additive accumulation found"
-    if len(acc) == 1 and isinstance(acc[0].op, ast.Add) and isinstance(
-            acc[0].value, ast.Call) and src(acc[0].value.func) == "np.einsum":
-        call = acc[0].value
-        a, b = call.args[1], call.args[2]
-        if isinstance(a, ast.Name) and a.id in defs:
-            a = defs[a.id]
-        coeff_ok = src(a) == f"w[self.element_dofs[{i}]]"
-        m = re.match(r"self\.basis\[(\w+)\]\[(\w+)\]\.get\((\w+)\)$", src(b))
-        basis_ok = bool(m) and m.group(1) == i and m.group(3) == field_arg
-        sig_ok = isinstance(call.args[0], ast.Constant) and \
-            call.args[0].value.replace(" ", "") == "...,...j->...j"
-        ok_pair = coeff_ok and basis_ok and sig_ok
-        detail = (f"coefficient {src(a)} is paired with {src(b)} under "
-                  f"'{src(call.args[0])}'")
-    _v(rep, R3, ok_pair, "interpolate:pairing",
-       f"w[element_dofs[{i}]] multiplies basis[{i}][c].get(n) for the same "
-       f"{i}", path, "AbstractBasis.interpolate",
-       f"{detail}: coefficient row i must multiply local function i",
-       lp.lineno)
-    init = [n for n in lc.body if isinstance(n, ast.Assign)
-            and src(n.targets[0]) == src(acc[0].target)] if acc else []
-    zero = (len(init) == 1 and isinstance(init[0].value, ast.BinOp)
-            and isinstance(init[0].value.op, ast.Mult)
-            and isinstance(init[0].value.left, ast.Constant)
-            and init[0].value.left.value == 0)
-    _v(rep, R3, zero, "interpolate:from-zero", "accumulator starts at zero",
-       path, "AbstractBasis.interpolate",
-       "the accumulator does not start from zero", lc.lineno)
-    # every non-None field of the reference tuple goes through the same path
-    floops = [n for n in walk_no_nested(fn.node) if isinstance(n, ast.For)
-              and src(n.iter) == "range(len(ref))"]
-    okf = False
-    if len(floops) == 1:
-        n = floops[0].target.id
-        ifs = [x for x in floops[0].body if isinstance(x, ast.If)]
-        if len(ifs) == 1 and src(ifs[0].test) == f"ref[{n}] is not None":
-            calls = [c for c in ast.walk(ifs[0]) if isinstance(c, ast.Call)
-                     and src(c.func) == lc.name]
-            none_else = any(isinstance(c, ast.Constant) and c.value is None
-                            for x in ifs[0].orelse for c in ast.walk(x))
-            okf = (len(calls) == 1 and src(calls[0].args[0]) == n
-                   and none_else)
-    _v(rep, R3, okf, "interpolate:all-fields",
-       "value and every derivative field present in the basis are "
-       "interpolated by the same accumulation; absent ones stay None", path,
-       "AbstractBasis.interpolate",
-       "not every non-None field of the basis is interpolated through the "
-       "same accumulation", fn.lineno)
+    NB, NC = 3, 2
+
+    class S:
+        """a sum of products, as a sorted tuple of factor tuples"""
+        skv_isarray = True
+
+        def __init__(self, terms):
+            self.terms = tuple(sorted(terms))
+
+        def skv_binop(self, op, other, reflected):
+            if isinstance(op, ast.Add):
+                o = other.terms if isinstance(other, S) else None
+                if o is None:
+                    raise Unsupported("sum with a non-term")
+                return S(self.terms + o)
+            if isinstance(op, ast.Mult) and isinstance(other, (int, float,
+                                                               Fraction)):
+                if other == 0:
+                    return S(())
+                if other == 1:
+                    return self
+            raise Unsupported("arithmetic on interpolation terms")
+
+        def __eq__(self, o):
+            return isinstance(o, S) and self.terms == o.terms
+
+        def __hash__(self):
+            return hash(self.terms)
+
+        def __repr__(self):
+            return " + ".join("*".join(t) for t in self.terms) or "0"
+
+    class Fld:
+        def __init__(self, i, c):
+            self.i, self.c = i, c
+
+        def skv_getattr(self, name):
+            if name == "get":
+                return PyFunc(lambda a, k, n: S(
+                    ((f"phi[{self.i}][{self.c}].{int(a[0])}",),)))
+            if name == "astuple":
+                return ("v", "g", None)
+            raise Unsupported("field." + name)
+
+    class W:
+        skv_isarray = True
+
+        def skv_getitem(self, ix):
+            return S(((f"w[{ix}]",),))
+
+        def skv_getattr(self, name):
+            if name == "shape":
+                return (Poly.sym("N"),)
+            raise Unsupported("w." + name)
+
+    class ED:
+        def skv_getitem(self, ix):
+            return f"dofs{int(ix)}"
+
+    def hook(interp, name, args, kwargs, node):
+        if name == "numpy.einsum":
+            sig = args[0].replace(" ", "")
+            a, b = args[1], args[2]
+            if sig == "...,...j->...j" and isinstance(a, S) and \
+                    isinstance(b, S):
+                return S(tuple(tuple(sorted(x + y)) for x in a.terms
+                               for y in b.terms))
+            raise Unsupported(f"einsum '{sig}' in interpolate")
+        if name.endswith("DiscreteField"):
+            return ("field", tuple(args))
+        return NotImplemented
+    basis = [[Fld(i, c) for c in range(NC)] for i in range(NB)]
+    comp = Obj(None, {"basis": basis})
+    obj = Obj(bcls, {"N": Poly.sym("N"), "Nbfun": NB, "basis": basis,
+                     "element_dofs": ED(), "elem": Obj(None, {}),
+                     "split": PyFunc(lambda a, k, n: [("w0", comp),
+                                                      ("w1", comp)])})
+    try:
+        r = Interp(model, call_hook=hook).call(fn, [W()], {}, self_obj=obj)
+    except (Unsupported, Raised) as e:
+        raise AnalysisError(f"AbstractBasis.interpolate: {e}")
+    ok_shape = isinstance(r, tuple) and len(r) == NC and all(
+        isinstance(x, tuple) and x and x[0] == "field" and len(x[1]) == 3
+        for x in r)
+    if not ok_shape:
+        raise AnalysisError(f"interpolate returns {r!r}: one field tuple "
+                            f"per component expected")
+    bad = None
+    for c in range(NC):
+        for n in range(2):
+            want = S(tuple(tuple(sorted((f"w[dofs{i}]",
+                                         f"phi[{i}][{c}].{n}")))
+                           for i in range(NB)))
+            got = r[c][1][n]
+            if got != want and bad is None:
+                bad = (c, n, got, want)
+        if r[c][1][2] is not None and bad is None:
+            bad = (c, 2, r[c][1][2], None)
+    _v(rep, R3, bad is None, "interpolate:pairing",
+       "field n of component c = sum over all local functions i of "
+       "w[element_dofs[i]] * basis[i][c].get(n), starting from zero; absent "
+       "fields stay None", path, "AbstractBasis.interpolate",
+       (f"field {bad[1]} of component {bad[0]} is {bad[2]!r}; expected "
+        f"{bad[3]!r}: coefficient row i must multiply local function i of "
+        f"the same component and field, once, for every i" if bad else ""),
+       fn.lineno)
+    # kept as separate obligations for the report
+    for cons, msg in (("interpolate:range", "all Nbfun local functions "
+                       "contribute"),
+                      ("interpolate:from-zero", "the accumulator starts at "
+                       "zero"),
+                      ("interpolate:all-fields", "value and every "
+                       "derivative field go through the same accumulation")):
+        if bad is None:
+            rep.ok(R3, cons, msg + " (part of the identity above)")
 
 
 def _v(rep, rule, ok, cons, okmsg, path, qual, badmsg, line):
